@@ -113,7 +113,10 @@ func FindAnchors(prog *Program) *Anchors {
 		case isBoolErr(sig) && namedIs(p0, grammarPath, "CollectionExpression") && a.CollEval == nil:
 			a.CollEval = f
 		case sig.Results().Len() == 3 && isEmptyIface(sig.Results().At(0).Type()) && isBool(sig.Results().At(1).Type()) && isErrorType(sig.Results().At(2).Type()):
-			if a.GetValue == nil {
+			// the lookup proper takes (datum, path, options...); helpers it is split into share the result shape only
+			if sig.Variadic() && sig.Params().Len() == 3 && (a.GetValue == nil || !a.GetValue.Signature.Variadic()) {
+				a.GetValue = f
+			} else if a.GetValue == nil {
 				a.GetValue = f
 			}
 		case sig.Params().Len() == 1 && namedIs(p0, "reflect", "Kind") && sig.Results().Len() == 1:
